@@ -98,7 +98,7 @@ def shape_key(e):
         return "n:" + "".join(e[2])
     if k == "hex":
         return "h:" + e[2]
-    if k == "str":
+    if k in ("str", "ostr"):
         return "s%d" % len(e[1])
     if k == "var":
         return "v$" if e[1].endswith("$") else "v"
